@@ -141,7 +141,12 @@ func runC01(c *Ctx) {
 	// ---- R5 ----
 	c.c01Pairing()
 	// ---- R6 ----
-	c.c01Opaque(ar)
+	if ar != nil {
+		arTop, _ := c.liftDecoder(ar, byteParam(ar))
+		c.c01Opaque(arTop)
+	} else {
+		c.c01Opaque(ar)
+	}
 }
 
 func (c *Ctx) c01Strides() {
